@@ -1671,6 +1671,8 @@ class Exec:
         for f_ in reversed(self.frames):
             if f_.get('contract') is not None: me = f_['contract']; break
         view = me.view if me is not None else None
+        if me is not None and fr.qual in me.hints.get('callee_views', {}):
+            view = me.hints['callee_views'][fr.qual]        # the sidecar names the view of the callee a call (e.g. a recursive one) is checked against; None = the default view
         c = (self.w.contracts.get(fr.key + '#' + view) if view else None) or self.w.contracts.get(fr.key)
         if c is None:
             # methods are keyed by Class.method; nested functions by outer.<locals>.inner
